@@ -456,7 +456,7 @@ func c20Damage(ld *c20Load) (pieces []c20Item, damaged int, complete []c20Item, 
 		for cutAt > 0 && cutAt < len(items) && items[cutAt-1].Kind == "clause" && items[cutAt].Kind == "clause" && items[cutAt-1].Pred == items[cutAt].Pred {
 			cutAt--
 		}
-		tok := []string{"'abc", "\"abc", "0'", "'a\\", "p1('x"}[(ld.Pos/(len(items)+1))%5]
+		tok := []string{"'abc", "\"abc", "0'", "'a\\", "p1('x", "/* abc", "/* abc *"}[(ld.Pos/(len(items)+1))%7]
 		its := append(append([]c20Item(nil), items[:cutAt]...), c20Item{Kind: "partial", Text: tok})
 		return its, cutAt, items[:cutAt], true, countClauses(items[:cutAt]) > 0
 	case "truncate", "damage-paren", "damage-quote":
